@@ -508,6 +508,7 @@ thread_local! {
 pub fn sim_stream(seed: u64, runs: usize, cfg: SimCfg, out: &str, name: &str, run_seed_override: Option<u64>) -> Sink {
     let mut sink = Sink::default();
     let mut net = vec![];
+    let mut hlog: Vec<String> = vec![];
     for r in 0..runs {
         let run_seed = run_seed_override.unwrap_or(seed.wrapping_mul(1_000_003).wrapping_add(r as u64));
         NODE_TRACES.with(|t| t.borrow_mut().clear());
@@ -524,9 +525,12 @@ pub fn sim_stream(seed: u64, runs: usize, cfg: SimCfg, out: &str, name: &str, ru
         }
         let first_line = sink.ops.len();
         NODE_TRACES.with(|t| {
-            for (ops, imp, _) in t.borrow().iter() {
+            for (node, (ops, imp, handler)) in t.borrow().iter().enumerate() {
                 for (o, i) in ops.iter().zip(imp.iter()) {
                     sink.push(o.clone(), i.clone(), "-".into());
+                }
+                for h in handler {
+                    hlog.push(format!("r={r} n={node} {h}"));
                 }
             }
         });
@@ -545,5 +549,7 @@ pub fn sim_stream(seed: u64, runs: usize, cfg: SimCfg, out: &str, name: &str, ru
     }
     std::fs::create_dir_all(out).ok();
     std::fs::write(format!("{out}/{name}.net.json"), format!("[{}]", net.join(",\n"))).expect("write net file");
+    std::fs::write(format!("{out}/{name}.handler"), hlog.join("\n") + "\n").expect("write handler log");
+    sink.add("sim.handler-records", hlog.len() as u64);
     sink
 }
